@@ -106,6 +106,16 @@ def c01_sigs(schema, doc, op=None):
     return sigs
 
 
+def duplicate_response_keys(doc):
+    """Is some response key selected twice by plain fields of ONE selection set (legal: the selections merge)?"""
+    def walk(sel):
+        keys = [x.key for x in sel if isinstance(x, Field)]
+        if len(keys) != len(set(keys)):
+            return True
+        return any(walk(x.sel) for x in sel if not isinstance(x, Spread) and x.sel)
+    return any(walk(d.sel) for d in doc.defs)
+
+
 def strip_indices(path):
     return re.sub(r"\[\d+\]", "", path)
 
